@@ -7,6 +7,7 @@ import (
 )
 
 // verif overlay: layout-checking init() removed (panics on newer crypto/tls layouts; QUIC unused)
+var _ tls.ConnectionState
 
 func toConnectionState(c connectionState) ConnectionState {
 	return *(*ConnectionState)(unsafe.Pointer(&c))
